@@ -2,10 +2,9 @@ SPECIFICATION Spec
 CONSTANTS
   Ident = "kitty"
   Style3 = "block"
-  Bits = 3
-  Fams = {"P", "S", "O", "L", "F", "T", "I"}
-  WithBad = FALSE
-  Dyn = FALSE
+  Bits = 2
+  Fams = {"P", "T"}
+  WithBad = TRUE
 VIEW View
 INVARIANT PlacementsExact
 INVARIANT OutputBracketed
